@@ -13,6 +13,7 @@ EXPLANATION = (
     "Err(CoinLocked) before script validation (legacy exemption confined to Mainnet/Testnet below 900000). R4 expiry: next_unsealed calls "
     "stakes.unlock_old(new_height / STAKE_EPOCH) after the height increment on every path. R5 epoch filters: unlock_old retains e_post_end >= epoch; votes / total_votes "
     "filter e_start <= epoch < e_post_end (∧ pubkey == key) and sum syms_staked. R6 new stakes are added, all of them, only after create_next_state succeeded."
+    " R1/R2 read the roles (doc, epoch, coin) of stake_is_consistent off its call site (parameter order is a spelling); R5 accepts `.sum()` or a fold with an addition step; R6 accepts the per-stake step as a `for` loop or as a for_each closure."
 )
 NOT_DECIDED = ["that a genuinely expired stake's coin is spendable again over a whole history (follows from R3+R4+R5, not separately shown)",
                "the legacy-window exemptions contradict the property for historical heights by design; the rules confine them, they do not remove them"]
